@@ -1,7 +1,8 @@
 //! C03: a satisfaction produced in NON-malleable mode for a sane script is the only witness a
 //! third party can get accepted.
 //!
-//! Judge (`J nonmall`): the library's script bytes and the library's witness go to the Lean
+//! Judge (`J nonmall`; `J nonmall2e` = the same judge for scripts holding one curve point in two
+//! key encodings, see `two_encodings`): the library's script bytes and the library's witness go to the Lean
 //! driver, which searches ALL stacks (every length) over the adversary alphabet with the Lean
 //! Script semantics under the context's standardness flags (`Driver/OpsMalle.lean`).
 //! The harness only chooses the inputs, builds the alphabet extras (every preimage and every
@@ -83,6 +84,10 @@ fn distinct_keys(node: &Node, ctx: CtxK, next: &mut u32) -> Option<Node> {
     };
     let bx = |n: Node| Box::new(n);
     Some(match node {
+        // uncompressed keys (ids 100..199, Legacy/Bare only) keep their id: their 65-byte encoding
+        // is the point of having them; NOTE id 100+i is the same curve point as id i
+        PkK(k) if (100..200).contains(k) => PkK(*k),
+        PkH(k) if (100..200).contains(k) => PkH(*k),
         PkK(_) => PkK(fresh(next)?),
         PkH(_) => PkH(fresh(next)?),
         Multi(k, v) => Multi(*k, v.iter().map(|_| fresh(next)).collect::<Option<Vec<_>>>()?),
@@ -212,6 +217,14 @@ fn is_signature(e: &[u8]) -> bool {
     }).contains(e)
 }
 
+/// one curve point in two key encodings (ids k and k+100, as keys or raw key hashes): the library's
+/// repeated-key check compares `Pk` values, so such scripts pass `SANE`; they are judged under their
+/// own op name (`J nonmall2e`, same judge)
+pub fn two_encodings(node: &Node) -> bool {
+    let mut ks = vec![]; node.keys(&mut ks); node.rawpkhs(&mut ks);
+    ks.iter().any(|k| *k < 100 && ks.contains(&(k + 100)))
+}
+
 struct Limits { _unused: () }
 const MAXLEN: usize = 100;
 
@@ -224,7 +237,7 @@ fn judge(out: &mut Out, lim: &Limits, ctx: CtxK, node: &Node, script: &str, w: &
     // the pruned search only descends while the script still consumes elements, so the bound
     // is just a safety net: 100 = the P2WSH standardness limit on witness items
     let args = format!("{} {} {} {} {} {} {}", ctx.name(), lt, sq, MAXLEN, script, wit_wire(w), wit_wire(&ex));
-    out.line(&format!("J nonmall {} | {} {}", args, node.wire(), info), "ok");
+    out.line(&format!("J {} {} | {} {}", if two_encodings(node) { "nonmall2e" } else { "nonmall" }, args, node.wire(), info), "ok");
     let maxlen = w.len() + slack;
     let args = format!("{} {} {} {} {} {} {}", ctx.name(), lt, sq, maxlen, script, wit_wire(w), wit_wire(&ex));
     out.count(&format!("judged witness length {}", w.len()));
@@ -320,6 +333,66 @@ fn hand_corpus(ctx: CtxK) -> Vec<Node> {
     c
 }
 
+/// the dissatisfaction-class rules of malleability.rs (`and_b`, `andor`, `or_i`: Unique vs
+/// Unknown) matter only under a parent that demands a unique dissatisfaction: each rule's
+/// Unique fragment AND its Unknown twin under or_d / or_b / thresh / andor.  The Unknown twins are
+/// not sane today (they feed the controls); a rule that wrongly says Unique makes them sane and
+/// judged.
+fn dissat_class_corpus(ctx: CtxK) -> Vec<Node> {
+    let k = |i: u32| if ctx == CtxK::Tap { 200 + i } else { i };
+    let sha = |h: u32| Node::Hash(HK::Sha256, h);
+    let v = |n: Node| Node::Verify(bx(n));
+    let mut fs: Vec<Node> = vec![
+        // and_b: (Unique, Unique) both signed -> Unique | right side unsigned -> Unknown
+        Node::AndB(bx(pk(k(1))), bx(Node::Swap(bx(pk(k(2)))))),
+        Node::AndB(bx(pk(k(1))), bx(Node::Swap(bx(sha(0))))),
+        Node::AndB(bx(sha(0)), bx(Node::Swap(bx(pk(k(1)))))),
+        // andor: c Unique and (a signed | b none) -> Unique | c Unknown -> Unknown
+        Node::AndOr(bx(pk(k(1))), bx(pk(k(2))), bx(pk(k(3)))),
+        Node::AndOr(bx(pk(k(1))), bx(pk(k(2))), bx(sha(0))),
+        Node::AndOr(bx(pk(k(1))), bx(Node::AndV(bx(v(pk(k(2)))), bx(Node::Older(10)))), bx(pk(k(3)))),
+    ];
+    // an UNSIGNED fragment with a unique dissatisfaction (what makes and_b / andor Unknown)
+    let mut us: Vec<Node> = vec![Node::NonZero(bx(Node::AndV(bx(v(sha(0))), bx(Node::True))))];
+    if !matches!(ctx, CtxK::Legacy | CtxK::Bare) {
+        us.push(Node::OrI(bx(Node::False), bx(Node::ZeroNotEqual(bx(Node::After(100))))));
+    }
+    for u in us {
+        // and_b: (Unique, Unique) but one side unsigned -> Unknown
+        fs.push(Node::AndB(bx(pk(k(1))), bx(Node::Alt(bx(u.clone())))));
+        fs.push(Node::AndB(bx(u.clone()), bx(Node::Swap(bx(pk(k(1)))))));
+        // andor: a unsigned and b dissatisfiable -> Unknown
+        fs.push(Node::AndOr(bx(u), bx(pk(k(2))), bx(pk(k(3)))));
+    }
+    if !matches!(ctx, CtxK::Legacy | CtxK::Bare) {
+        // or_i: (none, Unique) -> Unique | (Unique, Unique) -> Unknown
+        fs.push(Node::OrI(bx(Node::AndV(bx(v(pk(k(1)))), bx(pk(k(2))))), bx(pk(k(3)))));
+        fs.push(Node::OrI(bx(pk(k(1))), bx(pk(k(2)))));
+        fs.push(Node::OrI(bx(pk(k(1))), bx(Node::False)));
+        fs.push(Node::OrI(bx(Node::AndV(bx(v(pk(k(1)))), bx(Node::After(100)))), bx(Node::False)));
+    }
+    let mut c = vec![];
+    for f in fs {
+        c.push(Node::OrD(bx(f.clone()), bx(pk(k(9)))));
+        c.push(Node::OrB(bx(f.clone()), bx(Node::Alt(bx(pk(k(9)))))));
+        c.push(Node::OrB(bx(pk(k(9))), bx(Node::Alt(bx(f.clone())))));
+        c.push(Node::Thresh(1, vec![f.clone(), Node::Alt(bx(pk(k(9))))]));
+        c.push(Node::Thresh(2, vec![f.clone(), Node::Alt(bx(pk(k(8)))), Node::Alt(bx(pk(k(9))))]));
+        c.push(Node::AndOr(bx(f.clone()), bx(pk(k(8))), bx(pk(k(9)))));
+        c.push(Node::AndV(bx(v(pk(k(7)))), bx(Node::OrD(bx(f), bx(sha(1))))));
+    }
+    c
+}
+
+/// every designated script of a context: own corpus, the shared dimension corpus, the
+/// dissatisfaction-class corpus
+fn designated(ctx: CtxK) -> Vec<Node> {
+    let mut c = hand_corpus(ctx);
+    c.extend(ast::dimension_corpus(ctx));
+    c.extend(dissat_class_corpus(ctx));
+    c
+}
+
 /// scripts that are malleable for a reason the TYPE SYSTEM reports; the control derives the
 /// second satisfaction itself (malleable satisfier on a reduced asset set)
 fn control_corpus(ctx: CtxK) -> Vec<Node> {
@@ -339,6 +412,114 @@ fn control_corpus(ctx: CtxK) -> Vec<Node> {
         c.push(Node::AndV(bx(v(pk(k(0)))), bx(Node::OrI(bx(Node::After(100)), bx(Node::Older(10))))));
     }
     c
+}
+
+/* ------------------------------------------------------------------ compiler-built scripts */
+
+/// Concrete policies whose compilations carry types built by the COMPILER's casts (`t:`, `l:`,
+/// `u:` via `from_components_unchecked`), which `from_ast` never uses.  `K<i>` = key atom,
+/// `H<i>` = sha256 atom, written into the policy text as real keys / hashes.
+#[derive(Clone)]
+enum Pol { K(u32), H(u32), After(u32), Older(u32), And(Vec<Pol>), Or(Vec<(usize, Pol)>), Thr(usize, Vec<Pol>) }
+
+fn pol_text(p: &Pol) -> String {
+    match p {
+        Pol::K(i) => format!("pk(K{})", i), Pol::H(i) => format!("sha256(H{})", i),
+        Pol::After(n) => format!("after({})", n), Pol::Older(n) => format!("older({})", n),
+        Pol::And(v) => format!("and({})", v.iter().map(pol_text).collect::<Vec<_>>().join(",")),
+        Pol::Or(v) => format!("or({})", v.iter().map(|(w, x)| format!("{}@{}", w, pol_text(x))).collect::<Vec<_>>().join(",")),
+        Pol::Thr(k, v) => format!("thresh({},{})", k, v.iter().map(pol_text).collect::<Vec<_>>().join(",")),
+    }
+}
+
+fn pol_build<Pk: ast::KeyOf>(p: &Pol, base: u32) -> Option<miniscript::policy::Concrete<Pk>> {
+    use miniscript::policy::Concrete as C;
+    use miniscript::bitcoin::hashes::{sha256, Hash};
+    use std::sync::Arc;
+    Some(match p {
+        Pol::K(i) => C::Key(Pk::of(base + i)),
+        Pol::H(i) => C::Sha256(sha256::Hash::from_slice(&ast::hash_value(HK::Sha256, *i)).ok()?),
+        Pol::After(n) => C::After(miniscript::AbsLockTime::from_consensus(*n).ok()?),
+        Pol::Older(n) => C::Older(miniscript::RelLockTime::from_consensus(*n).ok()?),
+        Pol::And(v) => C::And(v.iter().map(|x| pol_build(x, base).map(Arc::new)).collect::<Option<Vec<_>>>()?),
+        Pol::Or(v) => C::Or(v.iter().map(|(w, x)| pol_build(x, base).map(|q| (*w, Arc::new(q)))).collect::<Option<Vec<_>>>()?),
+        Pol::Thr(k, v) => C::Thresh(miniscript::Threshold::new(*k, v.iter().map(|x| pol_build(x, base).map(Arc::new)).collect::<Option<Vec<_>>>()?).ok()?),
+    })
+}
+
+fn policies() -> Vec<Pol> {
+    use Pol::*;
+    let and = |a: Pol, b: Pol| And(vec![a, b]);
+    let or = |wa: usize, a: Pol, wb: usize, b: Pol| Or(vec![(wa, a), (wb, b)]);
+    vec![
+        or(1, K(0), 1, and(K(1), H(0))),
+        Thr(2, vec![K(0), K(1), Older(10)]),
+        or(99, K(0), 1, and(K(1), After(100))),
+        or(1, K(0), 99, and(K(1), After(100))),
+        and(K(0), or(99, K(1), 1, H(0))),
+        and(K(0), or(1, K(1), 99, Older(10))),
+        Thr(2, vec![K(0), K(1), K(2), After(100)]),
+        Thr(3, vec![K(0), K(1), Older(10), After(100)]),
+        or(1, and(K(0), Older(10)), 1, and(K(1), H(0))),
+        or(99, and(K(0), After(100)), 1, and(K(1), and(H(0), Older(10)))),
+        and(K(0), or(1, H(0), 1, or(9, K(1), 1, Older(10)))),
+        or(1, K(0), 1, or(1, and(K(1), H(0)), 1, and(K(2), H(1)))),
+        Thr(2, vec![K(0), or(1, K(1), 1, and(K(2), Older(10))), and(K(3), H(0))]),
+        and(or(9, K(0), 1, K(1)), or(1, and(K(2), After(100)), 9, K(3))),
+    ]
+}
+
+/// compile the policies in `Ctx` and judge the compiled miniscripts AS THE COMPILER TYPED THEM
+/// (`ms.ty` is the compiler's: it decides `validate(SANE)` and `root_has_sig` in `satisfy`)
+fn compiled_cases<Pk, Ctx>(out: &mut Out, lim: &Limits, ctx: CtxK, thorough: bool) -> u64
+where
+    Pk: msops::HKey + crate::c10b::Atom,
+    Ctx: ScriptContext,
+    Assets: miniscript::Satisfier<Pk>,
+{
+    let base = if ctx == CtxK::Tap { 200 } else { 0 };
+    let mut n = 0u64;
+    for pt in policies() {
+        let text = pol_text(&pt);
+        let pol: miniscript::policy::Concrete<Pk> = match pol_build(&pt, base) { Some(p) => p, None => { out.count("compiled: policy not constructible"); continue } };
+        let ms: Miniscript<Pk, Ctx> = match std::panic::catch_unwind(std::panic::AssertUnwindSafe(|| pol.compile::<Ctx>())) {
+            Ok(Ok(m)) => m,
+            _ => { out.count(&format!("compiled: no compilation in {}", ctx.name())); continue }
+        };
+        let node = match crate::c10b::from_ms(&ms) { Some(x) => x, None => { out.count("compiled: atoms outside the table"); continue } };
+        if ms.validate(&Ctx::SANE).is_err() {
+            // the compiler promises sane output for these policies (statement of C08); here it
+            // only means: nothing to judge
+            out.count("observation: compiled script not SANE by its own type");
+            continue;
+        }
+        out.count(&format!("compiled scripts {}", ctx.name()));
+        let script = hex(ms.encode().as_bytes());
+        let full = Assets::full(&node);
+        let nk = (full.ecdsa.len() + full.schnorr.len()).min(5) as u32;
+        let np = full.pre.len().min(2) as u32;
+        let mut txs = tx_values(&node);
+        if !thorough { txs.truncate(6); }
+        let mut done: BTreeSet<(Vec<Vec<u8>>, u32, u32)> = BTreeSet::new();
+        for (lt, sq) in txs {
+            for km in (0..(1u32 << nk)).rev() {
+                for pm in (0..(1u32 << np)).rev() {
+                    let a = assets_for(&node, lt, sq, km | 1 << 31, pm);
+                    // model correspondence on the COMPILER-typed object: the Lean model types the
+                    // same tree with the from_ast rules, so a cast rule that disagrees shows here
+                    let tmpl = std::panic::catch_unwind(std::panic::AssertUnwindSafe(|| ms.build_template(&a)));
+                    match &tmpl {
+                        Ok(tm) => out.line(&format!("C satisfy {} nonmall {} {}", ctx.name(), node.wire(), a.wire()), &msops::show_sat(tm)),
+                        Err(_) => out.line(&format!("C satisfy {} nonmall {} {}", ctx.name(), node.wire(), a.wire()), "PANIC"),
+                    }
+                    let w = match std::panic::catch_unwind(std::panic::AssertUnwindSafe(|| ms.satisfy(&a))) { Ok(Ok(w)) => w, _ => continue };
+                    if !done.insert((w.clone(), lt, sq)) { continue; }
+                    if judge(out, lim, ctx, &node, &script, &w, lt, sq, 1, &format!("compiled:{} {}", text, a.wire())) { n += 1; }
+                }
+            }
+        }
+    }
+    n
 }
 
 /* ------------------------------------------------------------------ driver */
@@ -372,7 +553,7 @@ pub fn run(out: &mut Out, thorough: bool, seed: u64) {
                 None => out.count("candidate ill-typed or not B"),
             }
         };
-        for n in hand_corpus(ctx) {
+        for n in designated(ctx) {
             if std::env::var("C03_DEBUG").is_ok() { eprintln!("hand {} {} -> {:?}", ctx.name(), n.wire(), classify(ctx, &n)); }
             consider(n, &mut sane, &mut malleable, out);
         }
@@ -386,7 +567,8 @@ pub fn run(out: &mut Out, thorough: bool, seed: u64) {
         drop(consider);
         // thin out (seeded) to the tier's budget, keeping the hand corpus (it comes first)
         let cap = if thorough { 2500 } else if main_ctx { 900 } else { 250 };
-        let n_hand = hand_corpus(ctx).len().min(sane.len());
+        let n_hand = { let mut seen2: BTreeSet<String> = BTreeSet::new();
+            designated(ctx).into_iter().filter(|n| seen2.insert(n.wire()) && matches!(classify(ctx, n), Some((true, _)))).count().min(sane.len()) };
         if sane.len() > cap {
             let mut rest: Vec<Node> = sane.split_off(n_hand);
             for i in (1..rest.len()).rev() { let j = rng.below(i + 1); rest.swap(i, j); }
@@ -398,7 +580,7 @@ pub fn run(out: &mut Out, thorough: bool, seed: u64) {
             let hand_no_raw = sane.iter().take(n_hand).filter(no_raw).count();
             pools.insert(ctx, (sane.iter().filter(no_raw).cloned().collect(), hand_no_raw));
         }
-        for node in &sane {
+        for (node_ix, node) in sane.iter().enumerate() {
             n_sane += 1;
             node.count_frags(out);
             out.count(&format!("sane scripts {}", ctx.name()));
@@ -410,7 +592,7 @@ pub fn run(out: &mut Out, thorough: bool, seed: u64) {
             let nk = (n_plain + n_raw).min(6) as u32;
             let np = full.pre.len().min(3) as u32;
             let mut txs = tx_values(node);
-            if !thorough { txs.truncate(4); }
+            if !thorough { txs.truncate(if node_ix < n_hand { 9 } else { 4 }); }
             let mut done: BTreeSet<(Vec<Vec<u8>>, u32, u32)> = BTreeSet::new();
             for (lt, sq) in txs {
                 // bit 31: public keys of raw key hashes known to the caller (one extra round
@@ -426,6 +608,12 @@ pub fn run(out: &mut Out, thorough: bool, seed: u64) {
                     }
                 }
             }
+        }
+        // ---- scripts built and TYPED by the policy compiler
+        if ctx != CtxK::Bare {
+            let nc = with_ctx!(ctx, compiled_cases(out, &lim, ctx, thorough));
+            n_judged += nc;
+            out.count(&format!("compiled cases judged {}: {}", ctx.name(), nc));
         }
         // ---- positive control: type-malleable scripts for which two adversary-assemblable
         // satisfactions exist (computed with the malleable satisfier from different asset sets)
@@ -484,5 +672,5 @@ pub fn run(out: &mut Out, thorough: bool, seed: u64) {
     out.note("positive_controls", n_ctl.to_string());
     out.note("distinct_nontrivial", n_judged.to_string());
     out.note("search", "exhaustive for every judged case, nothing skipped: ALL stacks of EVERY length (bound 100 items, never reached: the search descends only while the script still consumes elements) over Adv(w) = elements of w + {empty, 01, 02, 32 zero bytes, 32 junk bytes, 33 junk bytes} + every preimage + every public key of the script (also the keys behind raw key hashes); pruned depth-first from the stack top; inside a CHECKMULTISIG signature block only the empty string and valid signatures are tried (rule proved sound: C03.search_sigblock_pruning_sound); cross-checked against brute force up to |w|+1 on the small cases (C advbrute), against the specification table as an independent generator of satisfactions (J advcovers) and by positive controls (C advfinds, C dadvfinds, C dadvalt); a case whose search budget (3e6 script runs) runs out is reported as a failure".into());
-    out.note("domain", "miniscript level: B-typed scripts that pass Ctx::SANE (hand corpus incl. multi/multi_a/sortedmulti with n=3..5, k<n, all four hash kinds; scripts that are sane except for containing raw_pkh as an extension; enumerated fragments to depth 3 with keys renamed pairwise distinct and wrapped with fresh signatures; segwitv0, tap, legacy, bare) x transactions on both sides of every lock x subsets of keys, raw key hashes and preimages for which the non-malleable satisfier succeeds. Descriptor level: wsh / sh(wsh) / sh / bare / pkh / wpkh / sh(wpkh) / tr (key only, 1..3 leaves, shared keys, internal key reused in a leaf, one leaf at two depths) accepted by Descriptor::from_str, real transactions and sighashes, x key/preimage subsets x key path available or not, through Descriptor::get_satisfaction AND Descriptor::into_plan + Plan::satisfy; for tr every other leaf / control block and the key path are searched as alternative envelopes".into());
+    out.note("domain", "miniscript level: B-typed scripts that pass Ctx::SANE: own hand corpus (multi/multi_a/sortedmulti n=3..5, all hash kinds, raw_pkh as extension) + ast::dimension_corpus (both lock units, same-unit lock pairs, thresholds with lock children, one-child thresholds, uncompressed keys in every position incl. one point in both encodings) + dissatisfaction-class corpus (and_b / andor / or_i Unique vs Unknown twins under or_d / or_b / thresh / andor) + enumerated fragments to depth 3 with keys renamed pairwise distinct (uncompressed ids kept) and wrapped with fresh signatures; segwitv0, tap, legacy, bare; x transactions on both sides of every lock (9 for designated scripts) x subsets of keys, raw key hashes and preimages for which the non-malleable satisfier succeeds. Compiler: 14 Concrete policies compiled in segwitv0 / tap / legacy, judged with the COMPILER's type. Descriptor level: wsh / sh(wsh) / sh (incl. uncompressed keys, one point in both encodings) / bare / pkh / wpkh / sh(wpkh) / tr (key only; comb, balanced, right-leaning and mixed trees up to 5 leaves and depth 4; shared keys; internal key reused; one leaf at two depths; full keys of mixed parity), real transactions and sighashes, 64- and 65-byte Schnorr signatures, x key/preimage subsets (full, single removals, random, EMPTY, all keys without preimages) x transactions (incl. NO lock met) x key path available or not, through Descriptor::get_satisfaction AND Descriptor::into_plan + Plan::satisfy; for tr every other leaf / control block and the key path are searched as alternative envelopes".into());
 }
